@@ -259,8 +259,28 @@ func runNode(job *NodeJob, tag string) (*NodeResult, error) {
 	cmd.Stderr = se
 	cmd.Env = append(os.Environ(), "GOMAXPROCS=2", "GOGC=off")
 	runErr := cmd.Run()
+	for attempt := 0; runErr != nil && attempt < 5; attempt++ {
+		if _, exited := runErr.(*exec.ExitError); exited || ctx.Err() != nil {
+			break
+		}
+		// the child could not be started at all (fork: resource temporarily unavailable on an overloaded machine):
+		// that says nothing about the code under test - wait a little and try again
+		time.Sleep(time.Duration(200*(attempt+1)) * time.Millisecond)
+		so.Truncate(0)
+		se.Truncate(0)
+		cmd = exec.CommandContext(ctx, nodeSelf, "-verif.node.job", jobPath, "-verif.node.result", resPath)
+		cmd.Stdout = so
+		cmd.Stderr = se
+		cmd.Env = append(os.Environ(), "GOMAXPROCS=2", "GOGC=off")
+		runErr = cmd.Run()
+	}
 	if ctx.Err() != nil {
 		return nil, errNodeHarness{"node exceeded the 60 s wall-clock watchdog (no verdict)"}
+	}
+	if runErr != nil {
+		if _, exited := runErr.(*exec.ExitError); !exited {
+			return nil, errNodeHarness{"the child process could not be started: " + runErr.Error()}
+		}
 	}
 	stdout, _ := os.ReadFile(outPath)
 	stderr, _ := os.ReadFile(errPath)
